@@ -209,7 +209,7 @@ static int set_token(BufrDescriptor *b, char *tok){
           if(b->value->type==VALTYPE_INT32 || b->value->type==VALTYPE_INT8) return bufr_descriptor_set_ivalue(b,(int)iv) < 0 ? -1 : 0;
           if(b->value->type==VALTYPE_INT64) return bufr_value_set_int64(b->value, iv) < 0 ? -1 : 0;
           { int sc = b->encoding.scale; double d = (double)iv;
-            if(sc!=0) d = d / pow(10.0, (double)sc);
+            if(sc>0) d = d / pow(10.0, (double)sc); else if(sc<0) d = d * pow(10.0, (double)(-sc));
             if(b->value->type==VALTYPE_FLT32) return bufr_descriptor_set_fvalue(b,(float)d) < 0 ? -1 : 0;
             return bufr_descriptor_set_dvalue(b,d) < 0 ? -1 : 0; } }
         case TYPE_CODETABLE: case TYPE_FLAGTABLE:
